@@ -278,3 +278,121 @@ Definition model_out (c : case) : out :=
   end.
 
 Definition check_case (c : case) : bool := out_eqb (model_out c) (c_impl c).
+
+(* ------------------------------------------------------------------ *)
+(* Several configurations in one process (iso8601.init called again)   *)
+(* ------------------------------------------------------------------ *)
+(* ISO8601Point._iso_point_cmp / _iso_point_add / _iso_point_sub_interval are
+   functools.lru_cache'd on (string, string, CALENDAR.mode): the calendar mode
+   is the only item of the configuration in the key.  [keyf] is the part of a
+   configuration that goes into the key (the code as it stands: [cf_cal]).
+   Exceptions are not cached.  The cache size (10000) is never reached by the
+   correspondence runs and is not modelled.  point_parse itself is keyed on the
+   string, the dump format and the assumed time zone, i.e. on everything
+   [cf_inst] depends on, so standardise needs no cache here. *)
+Record config := {
+  cf_cal : Z;                       (* calendar mode *)
+  cf_inst : string -> option Z;     (* parse under this configuration *)
+  cf_fmt : Z -> string;             (* dump under this configuration *)
+  cf_resol : Z
+}.
+
+Inductive rop :=
+| RCmp (a b : string) | RStd (a : string) | RAdd (p i : string) | RSub (p i : string).
+Inductive rout := ROCmp (c : comparison) | ROStr (s : string) | ROErr (e : err).
+
+Definition rout_eqb (x y : rout) : bool :=
+  match x, y with
+  | ROCmp a, ROCmp b => Z.eqb (cmp_to_Z a) (cmp_to_Z b)
+  | ROStr a, ROStr b => String.eqb a b
+  | ROErr a, ROErr b => err_eqb a b
+  | _, _ => false
+  end.
+
+Definition of_cmp (r : res comparison) : rout := match r with Ok c => ROCmp c | Err e => ROErr e end.
+Definition of_str (r : res string) : rout := match r with Ok s => ROStr s | Err e => ROErr e end.
+
+Section Reinit.
+  Variable isecs : string -> option Z.    (* interval lengths do not depend on the configuration *)
+  Variable keyf : config -> Z.
+
+  (* what the operation means under configuration c: no cache *)
+  Definition pure_rop (c : config) (o : rop) : rout :=
+    match o with
+    | RCmp a b => of_cmp (dcmp (cf_inst c) a b)
+    | RStd a => of_str (dstd (cf_inst c) (cf_fmt c) (cf_resol c) a)
+    | RAdd p i => of_str (dadd (cf_inst c) (cf_fmt c) (cf_resol c) isecs p i)
+    | RSub p i => of_str (dsub (cf_inst c) (cf_fmt c) (cf_resol c) isecs p i)
+    end.
+
+  (* cache entries: (which function, arg 1, arg 2, key part of the configuration, result) *)
+  Definition centry := (Z * string * string * Z * rout)%type.
+
+  Fixpoint clookup (kind : Z) (a b : string) (k : Z) (cache : list centry) : option rout :=
+    match cache with
+    | [] => None
+    | (kind', a', b', k', r) :: rest =>
+        if Z.eqb kind kind' && String.eqb a a' && String.eqb b b' && Z.eqb k k' then Some r
+        else clookup kind a b k rest
+    end.
+
+  Definition is_rerr (r : rout) : bool := match r with ROErr _ => true | _ => false end.
+
+  Definition cached (kind : Z) (a b : string) (c : config) (cache : list centry) (o : rop)
+    : rout * list centry :=
+    match clookup kind a b (keyf c) cache with
+    | Some r => (r, cache)
+    | None =>
+        let r := pure_rop c o in
+        (r, if is_rerr r then cache else (kind, a, b, keyf c, r) :: cache)
+    end.
+
+  Definition run_rop (c : config) (cache : list centry) (o : rop) : rout * list centry :=
+    match o with
+    | RCmp a b =>
+        (* PointBase.__cmp__: equal value strings never reach _iso_point_cmp *)
+        if String.eqb a b then (ROCmp Eq, cache) else cached 0 a b c cache o
+    | RStd _ => (pure_rop c o, cache)
+    | RAdd p i => cached 1 p i c cache o
+    | RSub p i => cached 2 p i c cache o
+    end.
+
+  Fixpoint run_scenario (cache : list centry) (steps : list (config * rop)) : list rout :=
+    match steps with
+    | [] => []
+    | (c, o) :: rest =>
+        let '(r, cache') := run_rop c cache o in r :: run_scenario cache' rest
+    end.
+End Reinit.
+
+(* correspondence interface of the re-initialisation stream *)
+Record rconfig := {
+  rc_cal : Z;
+  rc_inst : list (string * option Z);
+  rc_fmt : list (Z * string);
+  rc_resol : Z
+}.
+
+Definition config_of (r : rconfig) : config :=
+  {| cf_cal := rc_cal r;
+     cf_inst := fun s => match assoc String.eqb s (rc_inst r) with Some o => o | None => None end;
+     cf_fmt := fun z => match assoc Z.eqb z (rc_fmt r) with Some s => s | None => "?"%string end;
+     cf_resol := rc_resol r |}.
+
+Record rcase := {
+  r_configs : list rconfig;
+  r_isecs : list (string * option Z);
+  r_steps : list (nat * rop);           (* configuration in force (index), operation *)
+  r_impl : list rout
+}.
+
+Definition dummy_config : config :=
+  {| cf_cal := 0; cf_inst := fun _ => None; cf_fmt := fun _ => "?"%string; cf_resol := 1 |}.
+
+Definition rmodel_out (c : rcase) : list rout :=
+  let cfgs := map config_of (r_configs c) in
+  run_scenario (fun s => match assoc String.eqb s (r_isecs c) with Some o => o | None => None end)
+               cf_cal []
+               (map (fun '(i, o) => (nth i cfgs dummy_config, o)) (r_steps c)).
+
+Definition check_rcase (c : rcase) : bool := list_eqb rout_eqb (rmodel_out c) (r_impl c).
